@@ -15,6 +15,7 @@
    and transaction hashes identify transactions (C06, collision freedom: Kinj). *)
 From Coq Require Import List ZArith NArith Bool Lia.
 Require Import Mixin.Base.Res Mixin.Gen.Consts Mixin.Model.Fixed Mixin.Model.Finalize Mixin.Proofs.Finalize.
+Require Import Mixin.Proofs.FinalizeValidateLink.
 Import ListNotations.
 Open Scope Z_scope.
 
@@ -175,3 +176,128 @@ Theorem C17_unvalidated_shape_refuted :
     finalized s 14%N = true /\ total_of s a = supply_flow s a /\ unconsumed_sum s a < total_of s a.
 Proof. exists leak_ops, BTC. vm_compute. repeat split; reflexivity. Qed.
 Print Assumptions C17_unvalidated_shape_refuted.
+
+(* ---- tie to the validation model of C01 (Model/Validate.v) -------------------------------- *)
+
+(* A transaction ACCEPTED by the validation model against a view of the state
+   (view_of: the view's output reads return the state's records) satisfies
+   valid_tx: conservation, existence, same asset and distinct slots come from
+   C01_conservation, the output shapes (no slash output; submit outputs only in
+   a withdrawal-submit transaction; deposits / mints with script outputs only)
+   from the per-type validators (accepted_output_shapes).  Remaining hypotheses,
+   which validation cannot know:
+     H_hash_nonzero   : the payload hash is not the zero hash;
+     H_locked_by_this : every spent output is locked by this transaction (C03;
+                        LockUTXOs runs after Validate, which only sees "unlocked
+                        or locked by this hash"). *)
+Theorem C17_valid_tx_of_validated : forall s v f h ts fork t t',
+  V.validate v f h ts fork t = Ok tt ->
+  view_of s v -> related t h t' ->
+  h <> 0%N -> locked_by s t' ->
+  valid_tx s t'.
+Proof. exact validate_valid_tx. Qed.
+Print Assumptions C17_valid_tx_of_validated.
+
+(* The supply statement for every history in which each transaction, when a
+   snapshot first finalizes it, was accepted by the validation model against a
+   view of the state it is finalized on (accepted_member = that acceptance +
+   H_hash_nonzero + H_locked_by_this).  Further named hypotheses:
+     H_hash_injective      : hashes identify the transactions of the history (C06);
+     H_lock_discipline     : OpLock locks exactly the inputs of a known transaction under its hash (vop, C03);
+     H_genesis_allocations : the transactions of LoadGenesis, which are never
+                             validated, satisfy valid_tx directly (inside vgen). *)
+Theorem C17_supply_of_validated : forall (K : list tx),
+  (forall t1 t2, In t1 K -> In t2 K -> t_hash t1 = t_hash t2 -> t1 = t2) ->
+  forall ops, validated_history_v K empty_state ops ->
+  forall a, let s := run empty_state ops in
+    total_of s a = supply_flow s a /\
+    total_of s a = unconsumed_sum s a /\
+    0 <= total_of s a <= capacity a.
+Proof. exact supply_of_validated. Qed.
+Print Assumptions C17_supply_of_validated.
+
+(* ---- non-vacuity: the example history, its transactions accepted by the validation model -- *)
+
+Definition vscript : V.bytes := [255; 254; 1]%N.
+Definition vbase : V.view :=
+  {| V.v_utxo := fun _ _ => None; V.v_tx := fun _ => None; V.v_deposit_lock := fun _ => 0%N;
+     V.v_last_mint := None; V.v_nodes := fun _ => [];
+     V.v_custodian := fun _ => Some {| V.c_addr := (5%N, 6%N); V.c_nodes := [] |};
+     V.v_asset := fun _ => None; V.v_ghost_ok := fun _ _ _ => true |}.
+Definition vfacts : V.facts :=
+  {| V.f_check_key := fun _ => true; V.f_agg_ok := true; V.f_deposit_sig := true; V.f_claim_sig := true;
+     V.f_accept_sig := true; V.f_cancel_ghost := Ok true; V.f_cancel_sig := true; V.f_cust_prev_sig := true;
+     V.f_cust_node_sigs := [] |}.
+Definition vout (ty a : Z) (k : N) : V.output :=
+  {| V.o_type := ty; V.o_amount := a; V.o_keys := [k]; V.o_mask := 9%N; V.o_script := vscript; V.o_withdrawal := None |}.
+Definition vin (h : N) (i : Z) : V.input :=
+  {| V.i_hash := h; V.i_index := i; V.i_genesis := None; V.i_deposit := None; V.i_mint := None |}.
+Definition vtx (a : N) (ins : list V.input) (outs : list V.output) (sigs : option (list V.sigmap)) : V.tx :=
+  {| V.t_version := Consts.ValTxVersionHashSignature; V.t_asset := a; V.t_inputs := ins; V.t_outputs := outs;
+     V.t_refs := []; V.t_extra := []; V.t_agg := None; V.t_sigs := sigs |}.
+
+Definition vd1 : V.tx :=
+  vtx BTC [{| V.i_hash := 0%N; V.i_index := 0; V.i_genesis := None; V.i_mint := None;
+              V.i_deposit := Some {| V.d_chain := 7%N; V.d_key := [8]%N; V.d_key_trim := true; V.d_txlen := 4;
+                                     V.d_tx_trim := true; V.d_index := 0; V.d_amount := 50 |} |}]
+      [vout V.ot_script 50 102] (Some [[(0, false)]]).
+Definition vx1 : V.tx := vtx XIN [vin 11 0] [vout V.ot_script 400 103; vout V.ot_script 600 104] (Some [[(0, true)]]).
+Definition vw1 : V.tx :=
+  vtx BTC [vin 12 0]
+      [{| V.o_type := V.ot_wsubmit; V.o_amount := 20; V.o_keys := []; V.o_mask := 0%N; V.o_script := [];
+          V.o_withdrawal := Some (34, 0) |}; vout V.ot_script 30 105] (Some [[(0, true)]]).
+
+Ltac norm_state_v :=
+  match goal with
+  | |- validated_history_v _ ?s _ => let s' := eval vm_compute in s in change s with s'
+  | |- vmembers_v ?s _ _ => let s' := eval vm_compute in s in change s with s'
+  end.
+
+(* t' (already computed) was accepted: witness transaction vt, validated against the canonical view of the state *)
+Ltac solve_accepted vt :=
+  split; [|split];
+  [ match goal with |- context [view_of ?s _] => idtac | _ => idtac end;
+    match goal with
+    | |- exists v f ts fork t, view_of ?s v /\ _ =>
+        exists (view_from s vscript vbase), vfacts, 1, false, vt;
+        split; [apply view_from_ok|split; [repeat split; reflexivity|vm_compute; reflexivity]]
+    end
+  | cbn; discriminate
+  | intros k u' Hk Hl; cbn in Hk;
+    repeat (destruct Hk as [<-|Hk]; [vm_compute in Hl; injection Hl as <-; reflexivity|]); destruct Hk ].
+
+Example C17_ex_validated_v : validated_history_v exK empty_state ex_ops.
+Proof.
+  unfold ex_ops.
+  (* genesis: never validated, valid_tx directly *)
+  constructor.
+  { cbn [vop_v vop]. intros s1 H1. vm_compute in H1. injection H1 as <-. cbn [vgen]. split; [cbn; auto|].
+    split.
+    - norm_state. cbn [vmembers sn_txs sn_]. split; [|auto].
+      intros t Hb _. vm_compute in Hb. injection Hb as <-. solve_valid ltac:(right; right; right).
+    - intros s2 _. exact I. }
+  norm_state_v. constructor; [exact I|]. norm_state_v. constructor; [exact I|]. norm_state_v.
+  constructor; [cbn; auto|]. norm_state_v.
+  (* snapshot of the deposit: accepted by the validation model *)
+  constructor.
+  { cbn [vop_v vmembers_v sn_txs sn_]. split; [|auto].
+    intros t Hb _. vm_compute in Hb. injection Hb as <-. solve_accepted vd1. }
+  norm_state_v. constructor; [exact I|]. norm_state_v.
+  constructor; [exists x1; cbn; repeat split; auto; discriminate|]. norm_state_v.
+  constructor; [cbn; auto|]. norm_state_v.
+  constructor; [exists w1; cbn; repeat split; auto; discriminate|]. norm_state_v.
+  constructor; [cbn; auto 6|]. norm_state_v.
+  (* the batch: transfer and withdrawal submission accepted by the validation model; the deposit presented again *)
+  constructor.
+  { cbn [vop_v vmembers_v sn_txs sn_]. split.
+    - intros t Hb _. vm_compute in Hb. injection Hb as <-. solve_accepted vx1.
+    - intros s1 H1. vm_compute in H1. injection H1 as <-. split.
+      + intros t Hb _. vm_compute in Hb. injection Hb as <-. solve_accepted vw1.
+      + intros s2 H2. vm_compute in H2. injection H2 as <-. split; [|auto].
+        intros t Hb Hf. vm_compute in Hf. discriminate Hf. }
+  constructor.
+Qed.
+
+Example C17_ex_instance_v : forall a, let s := run empty_state ex_ops in
+  total_of s a = supply_flow s a /\ total_of s a = unconsumed_sum s a /\ 0 <= total_of s a <= capacity a.
+Proof. exact (C17_supply_of_validated exK exK_inj ex_ops C17_ex_validated_v). Qed.
